@@ -880,6 +880,8 @@ def run(ctx):   # noqa: F811
     from harness import c11_extra
     c11_extra.run(ctx)
     c11_extra.run_round3(ctx)
+    from harness import c11_graded
+    c11_graded.run(ctx)
 
 def replay(path):
     d = json.load(open(path))
@@ -888,6 +890,9 @@ def replay(path):
     if 'net' in rep and 'history' in rep:
         from harness import c11_extra
         return c11_extra.replay_history(rep)
+    if 'positive_real_net' in rep:
+        from harness import c11_graded
+        return c11_graded.replay_positive(rep)
     if 'net' not in rep:
         print(json.dumps(rep, indent=1)[:4000])
         return 0
